@@ -59,7 +59,7 @@ fn rule_text(prop: Prop) -> &'static str {
         Prop::C10 => "enum programs (tagged and unit-only); tag dropped / non-string / unknown / near-miss / moved / switched, both remove disciplines; value and reports vs reference interpreter. Every run non-trivial; distinct = distinct history fingerprints.",
         Prop::C11 => "programs using from / try_from / map / validate / field-level error type; leaf and callback faults; keep-going run: calls, value and user-error reports equal the reference interpreter's; every stop position and a random script: no call outside the keep-going call set, none twice, every failed callback handed over at once, no user error or field-level error value dropped. Non-trivial = at least one callback call; distinct = distinct history fingerprints.",
         Prop::C12 => "hostile mix: all source faults incl. duplicates, NaN/inf, NegativeInteger(n>=0), depth-128 and 10000-element payloads; every stop position, random scripts, both remove disciplines, both sources, all three error parties; catch_unwind around each call. Every run non-trivial; distinct = distinct history fingerprints.",
-        Prop::C14 => "failing payloads: JsonError and QueryParamError swapped in as the error party; message must equal that type's rendering of the first keep-going report (linkage) and is parsed back independently: path, quoted JSON value, names, alternatives, suggestion, lengths compared with the recorded report and the held document. Non-trivial = the built-in error type returned an error; distinct = distinct history fingerprints.",
+        Prop::C14 => "failing payloads: JsonError and QueryParamError swapped in as the error party; message must equal that type's rendering of the first keep-going report (linkage) and is parsed back independently: path, quoted JSON value, names, alternatives, suggestion, lengths compared with the recorded report and the held document; the recorded first report itself must be one the reference interpreter expects for the payload (M-first). Non-trivial = the built-in error type returned an error; distinct = distinct history fingerprints.",
         Prop::C15 => "per scenario all joint member orders of all objects when there are at most 200 (else 64 seeded joint permutations), times both remove disciplines, keep-going answers; value and report multiset must equal those of the base order. Every run non-trivial; distinct = distinct history fingerprints.",
     }
 }
@@ -733,7 +733,7 @@ fn cmd_check_worker(env: &Env, prop: Prop, args: &[String]) -> i32 {
         Prop::C10 => &["probe_unknown_tag_value", "probe_swap_remove_moved_a_member", "SRC-TAG_injected"],
         Prop::C11 => &["CB-FAIL_fired", "LEAF-FAIL_fired", "probe_field_error_type_answered_break", "probe_try_from_failure_with_nonempty_accumulator"],
         Prop::C12 => &["scenarios_with_duplicate_keys", "scenarios_with_exotic_values", "break_answers_to_error"],
-        Prop::C14 => &["parseback_checked", "parseback_at_root", "parseback_at_depth_ge3", "first_report_linkage_checked"],
+        Prop::C14 => &["parseback_checked", "parseback_at_root", "parseback_at_depth_ge3", "first_report_linkage_checked", "first_report_checked_against_reference_interpreter"],
         Prop::C15 => &["x_perm_orders_compared", "x_perm_scenarios_with_all_orders", "probe_swap_remove_moved_a_member"],
     };
     let stuck: Vec<&&str> = required.iter().filter(|k| stats.counters.get(**k).copied().unwrap_or(0) == 0).collect();
